@@ -842,8 +842,16 @@ func calibrate() {
 		}
 		b := runChild(filepath.Join(base, "data"), all, noKill)
 		if b.Identity == nil || !b.SawStarted {
-			calErr = fmt.Sprintf("second calibration child did not come up: %s %s %s\n%s", b.HarnessErr, b.Fatal, b.Exit, b.Output)
-			return
+			if b.HarnessErr != "" {
+				calErr = fmt.Sprintf("second calibration child did not come up: %s %s %s\n%s", b.HarnessErr, b.Fatal, b.Exit, b.Output)
+				return
+			}
+			// A restart over the first child's data directory that does not come up is what
+			// the statement is about, not a calibration matter: the histories decide it (they
+			// repeat the run, attribute it and shrink); timing estimates come from the first
+			// start alone then (seed C18-r5-1 made every restart crash and was reported as
+			// harness trouble).
+			b = a
 		}
 		calCold, calWarm = a.StartedAt, b.StartedAt
 		if calCold < calWarm {
